@@ -241,6 +241,9 @@ step(int t, int tc, int n)
 	V_ASSERT(ret == 0 || ret == -1, "mark_event returns 0 or -1");
 	V_ASSERT((ret == 0) == accept,
 			"C17: a mark event of a defined type is accepted iff payload size is 12, the value is not 0, and the operation is legal for the channel type (push/pop on stack, set on single, pop matches the top)");
+	/* assert-then-assume: the post-state assertions below are about the case where the verdict
+	 * is right (a wrong verdict is reported once, not as a cascade of 100 slow error traces) */
+	V_ASSUME((ret == 0) == accept);
 
 	struct chan *cs = &me->mark.channels[0], *ck = &me->mark.channels[1];
 	struct chan *ocs = &other->mark.channels[0], *ock = &other->mark.channels[1];
@@ -317,6 +320,7 @@ step_rec(int t)
 	V_ASSERT(g_nop == (dispatched ? 1 : 0),
 			"C17: a mark event reaches a channel (exactly once) iff payload size is 12, the type is defined, the value is not 0 and the event is OM[, OM] or OM=");
 	V_ASSERT((ret == 0) == (dispatched && !IN.chan_ret), "C17: a mark event is accepted iff it is well-formed and the channel accepts the operation");
+	V_ASSUME(g_nop == (dispatched ? 1 : 0) && (ret == 0) == (dispatched && !IN.chan_ret));   /* assert-then-assume */
 	if (dispatched) {
 		int want = IN.v == '[' ? OP_PUSH : IN.v == ']' ? OP_POP : OP_SET;
 		V_ASSERT(g_op == want, "C17: OM[ pushes, OM] pops, OM= sets");
